@@ -72,6 +72,11 @@ func (txn *txNoncer) setIfLower(addr common.Address, nonce uint64) {
 	if _, ok := txn.nonces[addr]; !ok {
 		txn.nonces[addr] = txn.fallback.GetNonce(addr)
 	}
+	// Never go below the state nonce: a stale pending transaction may be removed between
+	// a reset and demoteUnexecutables (pool full while re-injecting reorged transactions)
+	if base := txn.fallback.GetNonce(addr); nonce < base {
+		nonce = base
+	}
 	if txn.nonces[addr] <= nonce {
 		return
 	}
